@@ -1,46 +1,77 @@
 PROP = {'title': 'Safe API is total: no UB, crash or hang; failure only via optional/either',
  'level': 'exploration',
  'engine': 'E',
- 'technique': 'registry of public functions x instantiations, each run over its complete stated finite domain in an ASan+UBSan+'
-              '_GLIBCXX_ASSERTIONS build with a per-case watchdog and a catch-all around every call',
- 'level_text': 'Every registered function is called on every element of an explicitly enumerated domain (all values of every 8/16-bit '
-               'instantiation, the boundary lattice of 32/64 bit, all containers over {0,1,2} up to length 4 (thorough 6) with all indices in a '
-               'margin and beyond 2^31/2^32/2^63, all strings over {-,a,1,space} up to length 4..5 (thorough 6..8) in exact-size heap buffers, '
-               'all argument vectors up to length 3 (thorough 5) over six tokens, a fixed private directory tree). Each case is announced '
-               'before the call, so a sanitizer abort, a libstdc++ assertion or a hang is attributed to it; any exception other than the '
-               'documented one of that entry is a violation; where cheap the returned optional/either is compared with the obvious '
-               'expectation. The unit tests call each function on 1-5 values in an uninstrumented build and reach none of the edge inputs.',
+ 'technique': 'registry of public functions x instantiations, each run over its complete stated finite domain in an ASan+UBSan+_GLIBCXX_ASSERTIONS '
+              'build with a per-case watchdog and a catch-all around every call; functions that consume an environment object (locale facet, stream '
+              '/ stream buffer, file, user callback) are additionally driven with every scripted answer of that object',
+ 'level_text': 'Every registered function is called on every element of an explicitly enumerated domain (all values of every 8/16-bit instantiation, '
+               'the boundary lattice of 32/64 bit, all containers over {0,1,2} up to length 4 (thorough 6) with all indices in a margin and beyond '
+               '2^31/2^32/2^63, all strings over {-,a,1,space} up to length 4..5 (thorough 6..8) in exact-size heap buffers, all argument vectors up '
+               'to length 3 (thorough 5) over six tokens, a fixed private directory tree). Each case is announced before the call, so a sanitizer '
+               'abort, a libstdc++ assertion or a hang is attributed to it; any exception other than the documented one of that entry is a '
+               'violation; where cheap the returned optional/either is compared with the obvious expectation. The unit tests call each function on '
+               '1-5 values in an uninstrumented build and reach none of the edge inputs. Environment objects are enumerated like values: locales '
+               'built from std::codecvt_utf8<wchar_t> and from a scripted strict UTF-8 codecvt facet that deviates on its k-th call (partial without '
+               'progress, partial / ok after one character, error, noconv; max_length 1, 4, 6); stream buffers that serve a text in chunks of 1..3 '
+               'and deviate at their k-th refill (end of file, ios_base::failure, a foreign exception; once or from then on) behind streams in every '
+               'iostate with every exceptions() mask; file streams on a directory / a missing path; element types, comparisons and callbacks that '
+               'throw at their k-th use.',
  'level_note': "'every public function' is bounded by the registry (size in counters.registry_entries, per-entry case counts in "
-               "counters['cases:<entry>'], skip predicates in 'skipped:<entry>'); 32/64-bit types on the boundary lattice only; oracle = "
-               'sanitizers + exception whitelist + watchdog, plus simple expectations; value-level correctness of these functions is the '
-               'subject of C06/C08/C15/C16, not of this check',
+               "counters['cases:<entry>'], skip predicates in 'skipped:<entry>'); 32/64-bit types on the boundary lattice only; oracle = sanitizers "
+               '+ exception whitelist + watchdog, plus simple expectations; value-level correctness of these functions is the subject of '
+               'C06/C08/C15/C16, not of this check',
  'binaries': [{'name': 'C01',
-               'sources': ['harness/C01.cpp', 'harness/C01_cont.cpp', 'harness/C01_fs.cpp', 'harness/C01_parse.cpp'],
-               'libs': ['core', 'filesystem', 'options'], 'flavour': 'asan'}],
+               'sources': ['harness/C01.cpp',
+                           'harness/C01_cont.cpp',
+                           'harness/C01_fs.cpp',
+                           'harness/C01_parse.cpp',
+                           'harness/C01_env.cpp',
+                           'harness/C01_stream.cpp'],
+               'libs': ['core', 'filesystem', 'options'],
+               'flavour': 'asan'}],
  'deadline': {'quick': 300, 'thorough': 1200},
- 'rule': 'one registry entry per function x instantiation, each a deterministic nest of loops over its whole domain: integer helpers '
-         '(log2, next_power_of_2, is_power_of_2, div, mod, diff, clamp, ceil_div, ceil_div_signed, truncation_check (64 type pairs), '
-         'enum from_int) over every 8/16-bit value (pairs: all on 8 bit; every 16-bit first operand x the lattice, thorough: x lattice and '
-         'every 16th value; clamp: all 8-bit triples, all lattice triples on 16 bit, on 32/64 bit 64 lattice points in quick and the whole '
-         'lattice in thorough) and the 32/64-bit boundary lattice, float/double special values; at_optional / maybe_front / maybe_back / '
-         'pop_back / pop_front / find_opt(_mapped,_iterator) / array::from_range over all sequences over {0,1,2} up to length 4 (thorough 6) '
-         'with every index in 0..size+2 and 8 huge indices; grid::at_optional for N=1,2,3 with every position in the margin and huge '
-         'coordinates; runtime_index over all u8/u16 values; cast::dynamic; enum from_string, extract_from_string (18 instantiations), '
-         'io::get / peek / read / read_chars / stream_to_string over all strings over {-,a,1,space} up to length 4 (thorough 6) plus '
-         'integer-limit strings; is_flag up to length 5 (thorough 8); parse_string / phrase_parse_string (19 grammars) up to length 4 '
-         '(thorough 7); narrow / widen over all strings over 8 (wide) characters incl. invalid ones up to length 4 (thorough 5); next_arg, '
-         'options::parse (11 parsers) over all argument vectors up to length 3 (thorough 5) over {-,--,-a,--a,x,1}, parse_help with --help/-h '
-         'added (length 3, thorough 4); every fcppt::filesystem function over 26 paths of a private tree (missing, empty, 5-byte, directory, '
-         'dangling / looping / valid symlinks, names with / without / only extension, trailing slash and dot) and 20 lexical paths. '
-         'string_view arguments live in exact-size heap blocks. A case is non-trivial when it reaches the guard or its boundary: zero '
-         'divisor, value at or across a type limit, empty or one-element container, index in {size-1,size,size+1,...}, string beginning '
-         'with - or space, non-ASCII string, path that is not a readable regular file / has no extension (per-entry predicate in '
-         'harness/C01*.cpp); cases are distinct (entry, input) tuples',
+ 'rule': 'one registry entry per function x instantiation, each a deterministic nest of loops over its whole domain: integer helpers (log2, '
+         'next_power_of_2, is_power_of_2, div, mod, diff, clamp, ceil_div, ceil_div_signed, truncation_check (64 type pairs), enum from_int) over '
+         'every 8/16-bit value (pairs: all on 8 bit; every 16-bit first operand x the lattice, thorough: x lattice and every 16th value; clamp: all '
+         '8-bit triples, all lattice triples on 16 bit, on 32/64 bit 64 lattice points in quick and the whole lattice in thorough) and the 32/64-bit '
+         'boundary lattice, float/double special values; at_optional / maybe_front / maybe_back / pop_back / pop_front / find_opt(_mapped,_iterator) '
+         '/ array::from_range over all sequences over {0,1,2} up to length 4 (thorough 6) with every index in 0..size+2 and 8 huge indices; '
+         'grid::at_optional for N=1,2,3 with every position in the margin and huge coordinates; runtime_index over all u8/u16 values; cast::dynamic; '
+         'enum from_string, extract_from_string (18 instantiations), io::get / peek / read / read_chars / stream_to_string over all strings over '
+         '{-,a,1,space} up to length 4 (thorough 6) plus integer-limit strings; is_flag up to length 5 (thorough 8); parse_string / '
+         'phrase_parse_string (19 grammars) up to length 4 (thorough 7); narrow / widen over all strings over 8 (wide) characters incl. invalid ones '
+         'up to length 4 (thorough 5); next_arg, options::parse (11 parsers) over all argument vectors up to length 3 (thorough 5) over '
+         '{-,--,-a,--a,x,1}, parse_help with --help/-h added (length 3, thorough 4); every fcppt::filesystem function over 26 paths of a private '
+         'tree (missing, empty, 5-byte, directory, dangling / looping / valid symlinks, names with / without / only extension, trailing slash and '
+         'dot) and 20 lexical paths. string_view arguments live in exact-size heap blocks. A case is non-trivial when it reaches the guard or its '
+         'boundary: zero divisor, value at or across a type limit, empty or one-element container, index in {size-1,size,size+1,...}, string '
+         'beginning with - or space, non-ASCII string, path that is not a readable regular file / has no extension (per-entry predicate in '
+         'harness/C01*.cpp); cases are distinct (entry, input) tuples; environment enumerations: widen_locale / to_std_wstring_locale / '
+         'narrow_locale / from_std_wstring_locale x {codecvt_utf8<wchar_t>, scripted facet: 21 scripts (normal + 5 answers x call 1..4) x max_length '
+         '{1,4,6}} x all concatenations of up to 3 (thorough 4) of the 12 byte tokens {a, 2-/3-/4-byte sequence, their 6 truncated prefixes, 0xFF, '
+         '0x80} resp. up to 4 (thorough 5) of the 7 wide tokens {a, e-acute, euro, U+1F600, 0xD800, 0x110000, -1}; 18 stream consumers '
+         '(stream_to_string, get, peek for char and wchar_t, read_chars(0,1,2,4), read<u8,u16,u32>, extract<int,string,char>, parse_stream(int_), '
+         'phrase_parse_stream(words, space)) x 42 texts (all over {a,1,space} up to length 3, thorough 4, plus two longer) x chunk 1..3 x (normal + '
+         '6 answers x event 1..4, thorough 1..6) x 4 initial iostates x 4 exception masks, plus ifstream / wifstream on a directory, a missing path '
+         'and a file x 4 masks; pop_back / pop_front / array::from_range / find_opt(_mapped) / runtime_index / extract_from_string with element '
+         'copies, comparisons, callbacks and operator>> that throw at their k-th use',
  'assumptions': ['the registry is the claim: functions not registered are not covered',
                  "inputs excluded by the documentation or whose exact result is not representable are skipped and listed under 'skipped:<entry>' "
                  '(log2(0), next_power_of_2 above the largest power, signed min / -1, |a-b| overflow, strip_prefix with a non-prefix)',
-                 'documented exceptions are accepted only with their exact type: std::runtime_error from widen (widen_locale.hpp), '
-                 'fcppt::exception from filesystem::open_exn',
+                 'documented exceptions are accepted only with their exact type: std::runtime_error from widen (widen_locale.hpp), fcppt::exception '
+                 'from filesystem::open_exn',
                  'harness runs use LC_ALL=C.UTF-8 (string_conv_locale() is locale(""))',
                  'resource exhaustion (read_chars with a count that cannot be allocated, ill-formed grammars such as *epsilon) is outside the domain',
-                 'the file system part assumes an ordinary POSIX file system below --tmp and a non-root-restricted user; reference = stat/opendir/open']}
+                 'the file system part assumes an ordinary POSIX file system below --tmp and a non-root-restricted user; reference = '
+                 'stat/opendir/open',
+                 'with a non-empty exceptions() mask on the stream passed in, std::ios_base::failure escaping is accepted (the standard-documented '
+                 "channel the caller asked for), and with badbit in the mask so is the stream buffer's own exception (the standard rethrows it); "
+                 'with an empty mask nothing may escape',
+                 'the scripted codecvt facet follows the codecvt contract for from_next / to_next in every answer; results are compared with the '
+                 'strict UTF-8 reference only when every answer was a correct conversion (normal, partial after one character) and, in the narrow '
+                 'direction, max_length() is truthful; std::codecvt_utf8 is compared in the narrow direction only for encodable input',
+                 'fcppt::widen / fcppt::narrow use std::locale("") and cannot be given a facet; the facet family covers the four *_locale entry '
+                 'points that reach fcppt::impl::codecvt in the narrow-string configuration',
+                 'a user exception (throwing element type, comparison, callback, operator>>) must propagate unchanged with balanced construction / '
+                 'destruction counts; after a throwing pop the container holds the original or the original minus the popped element',
+                 'shards in which a defect shows as a hang use a 5 s watchdog and stop after 3 restarts (then reported as not exhaustive)']}
